@@ -248,3 +248,46 @@ Definition derive_check
                 end
          | _, _ => 3
          end.
+
+(** ** a graph obtained through a construction / conversion / copy path of the library
+    ([Graph], [Graph.copy], [FactorGraph], [FactorGraph.from_graph], [FactorGraph.copy], [HRGRule.copy],
+    [HRG.copy], [FGG.from_hrg], [FGG.copy], JSON round trip, [copy.deepcopy]; [ext] assigned before, between
+    or after the edges, assigned twice, re-assigned on a copy).
+    input: the source graph as observed through [nodes()], [edges()], [ext] before the conversion (with the
+    external nodes the path finally assigns), the built graph observed the same way, the comparison mode
+    (0: a copy/conversion keeps the dicts and [ext] exactly; 1: same nodes and edges up to dict order, same
+    [ext]; 2: ids were regenerated (JSON with implicit ids): same labels and same type), the built graph's
+    observed [.type] and [.arity], and the outcomes of [HRGRule(lhs, graph)] for some left-hand sides
+    (0 accepted, 1 raised).
+    The type is never taken from the implementation: it is [gtype] = the labels of the external nodes.
+    verdicts: 0 ok; 1 [.type] / [.arity] is not the type / number of the external nodes; 2 the conversion
+    changed the content; 3 [HRGRule] accepted a left-hand side of another type (or a terminal) or refused
+    one of the graph's type *)
+Definition content_eqb (mode : nat) (a b : graph) : bool :=
+  match mode with
+  | 0 => list_eqb node_eqb (g_nodes a) (g_nodes b) && list_eqb edge_eqb (g_edges a) (g_edges b)
+         && list_eqb node_eqb (g_ext a) (g_ext b)
+  | 1 => perm_eqb node_eqb (g_nodes a) (g_nodes b) && perm_eqb edge_eqb (g_edges a) (g_edges b)
+         && list_eqb node_eqb (g_ext a) (g_ext b)
+  | _ => perm_eqb Nat.eqb (map n_label (g_nodes a)) (map n_label (g_nodes b))
+         && perm_eqb elabel_eqb (map e_label (g_edges a)) (map e_label (g_edges b))
+         && list_eqb Nat.eqb (gtype a) (gtype b)
+  end.
+
+(** [HRGRule.__post_init__]: raises iff the lhs is terminal or [lhs.type != rhs.type] *)
+Definition rule_accepts (lhs : elabel) (g : graph) : bool :=
+  negb (l_term lhs) && list_eqb Nat.eqb (l_type lhs) (gtype g).
+
+Definition type_obs_ok (ty : list nat) (ar : nat) (g : graph) : bool :=
+  list_eqb Nat.eqb ty (gtype g) && Nat.eqb ar (length (g_ext g)).
+
+Definition rules_obs_ok (rules : list (elabel * nat)) (g : graph) : bool :=
+  forallb (fun p => Nat.eqb (snd p) (if rule_accepts (fst p) g then 0 else 1)) rules.
+
+Definition build_check (x : wgraph * wgraph * nat * (list nat * nat) * list (wlab * nat)) : nat :=
+  let '(wsrc, wout, mode, (ty, ar), wrules) := x in
+  let src := d_graph wsrc in let out := d_graph wout in
+  if negb (type_obs_ok ty ar out) then 1
+  else if negb (content_eqb mode src out) then 2
+  else if negb (rules_obs_ok (map (fun p => (d_lab (fst p), snd p)) wrules) out) then 3
+  else 0.
